@@ -84,7 +84,7 @@ func cases(tier string, grid []item) []caseSpec {
 		pages := make([][]int, shards)
 		classIdx := map[string]int{}
 		for _, it := range grid {
-			if it.Policy {
+			if it.Policy || it.Sweep {
 				continue
 			}
 			c := it.class()
@@ -99,7 +99,7 @@ func cases(tier string, grid []item) []caseSpec {
 		}
 		// direct seeds: the seed's own response is the grid element, so the finish follows the fetch immediately
 		for _, it := range grid {
-			if it.Policy || it.Kind == "text" || it.Enc == "gzip" && it.Framing == "cl" || it.Enc == "identity" && it.Framing == "chunked" {
+			if it.Policy || it.Sweep || it.Kind == "text" || it.Enc == "gzip" && it.Framing == "cl" || it.Enc == "identity" && it.Framing == "chunked" {
 				continue
 			}
 			switch it.Size {
@@ -112,6 +112,17 @@ func cases(tier string, grid []item) []caseSpec {
 			}
 			out = append(out, caseSpec{Name: fmt.Sprintf("direct %s %s", d.name(), it.Path), Kind: "direct", Conf: d.conf(), Items: []int{it.ID}})
 		}
+		// the status-code sweep: one page with an asset per code; in the thorough tier each code as a seed as well
+		var sweep []int
+		for _, it := range grid {
+			if it.Sweep {
+				sweep = append(sweep, it.ID)
+				if tier == "thorough" {
+					out = append(out, caseSpec{Name: fmt.Sprintf("sweep direct %s %s", d.name(), it.Path), Kind: "direct", Conf: d.conf(), Items: []int{it.ID}})
+				}
+			}
+		}
+		out = append(out, caseSpec{Name: fmt.Sprintf("sweep grid %s", d.name()), Kind: "grid", Conf: d.conf(), Items: sweep})
 		// the discard policy with codes below 400: --warc-discard-status lists other than the default
 		for _, list := range policyLists {
 			conf := d.conf()
@@ -274,6 +285,7 @@ func main() {
 	a := hkit.ParseArgs()
 	grid := fullGrid()
 	grid = append(grid, policyItems(len(grid))...)
+	grid = append(grid, sweepItems(len(grid))...)
 	if a.Replay != "" {
 		replay(a.Replay, grid)
 		return
